@@ -49,6 +49,61 @@ def gen_raceprog(pid):
     return gd, out
 
 
+CONC_HEADER = """From Coq Require Import String.
+From Coq Require Import List NArith Bool.
+Import ListNotations.
+From MV Require Import Lib.Check.
+Open Scope string_scope. Open Scope N_scope. Open Scope list_scope.
+"""
+CONC_FOOTER = """
+Definition ids (k : N) : list N := map N.of_nat (seq 0 (N.to_nat k)).
+(* one barrier round: exactly the k messages (i, r), each once, in any order *)
+Definition round_ok (k r : N) (l : list (N * N)) : bool :=
+  (N.of_nat (length l) =? k) && forallb (fun i => existsb (fun x => (fst x =? i) && (snd x =? r)) l) (ids k).
+Fixpoint rounds_ok (k r : N) (ls : list (list (N * N))) : bool :=
+  match ls with [] => true | l :: rest => round_ok k r l && rounds_ok k (N.succ r) rest end.
+(* bulk: every sender's messages arrive exactly once and in its own order *)
+Fixpoint counts_up (from : N) (l : list N) : bool := match l with [] => true | x :: r => (x =? from) && counts_up (N.succ from) r end.
+Definition bulk_ok (k m : N) (l : list (N * N)) : bool :=
+  (N.of_nat (length l) =? k * m) &&
+  forallb (fun i => let mine := map snd (filter (fun x => fst x =? i) l) in (N.of_nat (length mine) =? m) && counts_up 0 mine) (ids k).
+Definition oneway_ok (c : string * N * N * list (list (N * N)) * list (N * N)) : bool :=
+  let '(_, k, m, rs, b) := c in negb (match rs with [] => true | _ => false end) && rounds_ok k 0 rs && bulk_ok k m b.
+(* request/reply on k contexts at once: goroutine i gets the echo of its own request *)
+Definition reqrep_ok (c : string * N * N * list (list (N * N)) * list (N * N)) : bool :=
+  let '(_, k, _, rs, _) := c in
+  negb (match rs with [] => true | _ => false end) &&
+  forallb (fun l => (N.of_nat (length l) =? k) && forallb (fun x => fst x =? snd x) l) rs.
+Definition bad_oneway := Eval vm_compute in bad_idx oneway_ok oneway_cases.
+Definition bad_reqrep := Eval vm_compute in bad_idx reqrep_ok reqrep_cases.
+Definition nrounds := Eval vm_compute in map (fun c => N.of_nat (length (snd (fst c)))) (oneway_cases ++ reqrep_cases).
+Print bad_oneway. Print bad_reqrep. Print nrounds.
+"""
+
+
+def run_concurrent(res):
+    """Concurrent callers on one socket (harness/cmd/c11conc): every interleaving must behave like some order of the calls."""
+    from .c20 import items
+    out, defs, (rc, so, se) = core.gen_and_eval("C11_conc", "c11conc", CONC_HEADER, CONC_FOOTER, timeout=900)
+    if out is None:
+        res.violation("conc:harness-abort", "the concurrent-callers harness did not complete on the current tree (rc=%d): %s" % (rc, (se[se.find("WATCHDOG"):][:300] if "WATCHDOG" in se else se[-600:])),
+                      {"stderr": se[-4000:]}, found_input=("panic:" in se or "WATCHDOG" in se))
+        return {}
+    text = open(defs).read()
+    n = 0
+    for cname, bname, what in (("oneway_cases", "bad_oneway", "K goroutines sending at the same instant on one socket (then K x M in bulk): at the connected, receiving peer a message was lost, "
+                                "duplicated, out of its sender's order, or the senders stalled (round list stops at the first incomplete round)"),
+                               ("reqrep_cases", "bad_reqrep", "K contexts making a request at the same instant: a goroutine did not get the echo of its own request (999999 = error / timeout)")):
+        its = items(text, cname)
+        n += len(its)
+        for i in core.parse_nlist(core.parse_printed(out, bname)) or []:
+            case = its[i] if i < len(its) else "?"
+            name = re.match(r'\("([^"]+)"', case)
+            res.violation("conc:%s:%s" % (cname, name.group(1) if name else "?"), what,
+                          {"group": cname, "index": i, "case": case[-3000:], "format": "(pattern/transport, K, M, per-round delivered [(sender, round)], bulk delivered [(sender, seq)])"})
+    return {"concurrent_scenarios": n, "rounds_per_scenario": core.parse_printed(out, "nrounds")}
+
+
 def run(res):
     core.std_proof_coverage(res, "C11", extra_obligations=len(OBLIGATIONS))
     gd, rp = gen_raceprog("C11")
@@ -116,6 +171,7 @@ def run(res):
             continue
         res.violation("obligation:" + n, "generated obligation %s no longer checks against the skeleton regenerated from /repo" % n,
                       {"theorem": n, "coqc": e, "translator": "harness/cmd/go2race"}, found_input=(found > 0))
+    conc = run_concurrent(res)
     text = open(rp).read()
     nfun = len(re.findall(r"rname :=", text))
     nacc = int(re.search(r"n_accesses : N := (\d+)", text).group(1))
@@ -127,6 +183,7 @@ def run(res):
                 "the discipline is asserted for fields of internal/core and protocol/* (transports: dynamic only). dynamic: 16 connected socket pairs (every pattern, cooked+raw) "
                 "hammered for 250 ms (1.5 s thorough) by concurrent Send/Recv/SetOption(15 options)/GetOption/OpenContext+ctx ops/NewDialer+Dial/NewListener+Listen/pipe.Close, then Close, under the race detector",
         "samples": [{"scenario": list(s)} for s in scen[:3]],
+        "concurrent_callers": conc,
     })
     res.coverage["trusted_base"] = core.COQ_TRUSTED + [
         "translator harness/cmd/go2race (go/packages, go/types, x/tools/go/cfg): mutexes and fields abstracted by class (declaring type + field); accesses through a local that holds an "
